@@ -524,7 +524,7 @@ pub fn sem(d: &JDoc) -> Vec<(String, CovResult)> {
             cov.lines.insert(l.line_number, l.count.value());
             if !l.branches.is_empty() {
                 cov.branches
-                    .insert(l.line_number, l.branches.iter().map(|b| b.count.value() > 0).collect());
+                    .insert(l.line_number, l.branches.iter().map(|b| b.count.value() > 1).collect());
             }
         }
         for x in &f.functions {
@@ -679,10 +679,52 @@ fn odd_number(rng: &mut Rng) -> J {
 
 /// one random structural mutation; returns its name
 pub fn mutate(j: &mut J, rng: &mut Rng) -> &'static str {
+    for _ in 0..8 {
+        let what = mutate_once(j, rng);
+        if what != "none" {
+            return what;
+        }
+    }
+    "none"
+}
+
+fn is_num(j: &J) -> bool {
+    matches!(j, J::Num(_))
+}
+
+/// index (pre-order) of a random node satisfying `pred`, if any
+fn pick_where(j: &J, rng: &mut Rng, pred: fn(&J) -> bool) -> Option<usize> {
+    fn walk(j: &J, pred: fn(&J) -> bool, i: &mut usize, out: &mut Vec<usize>) {
+        if pred(j) {
+            out.push(*i);
+        }
+        *i += 1;
+        match j {
+            J::Arr(xs) => xs.iter().for_each(|x| walk(x, pred, i, out)),
+            J::Obj(kvs) => kvs.iter().for_each(|(_, v)| walk(v, pred, i, out)),
+            _ => {}
+        }
+    }
+    let mut out = vec![];
+    walk(j, pred, &mut 0, &mut out);
+    if out.is_empty() {
+        None
+    } else {
+        Some(*rng.pick(&out))
+    }
+}
+
+fn mutate_once(j: &mut J, rng: &mut Rng) -> &'static str {
+    let choice = rng.below(10);
     let total = count_nodes(j);
-    let mut k = rng.below(total as u64) as usize;
+    let mut k = match choice {
+        // numbers are where the interesting boundaries are
+        2 | 9 => pick_where(j, rng, is_num).unwrap_or(0),
+        0 | 1 | 4 | 5 | 6 | 8 => pick_where(j, rng, |x| matches!(x, J::Obj(_))).unwrap_or(0),
+        _ => rng.below(total as u64) as usize,
+    };
     let node = nth_mut(j, &mut k).unwrap();
-    match rng.below(9) {
+    match choice {
         0 => {
             if let J::Obj(kvs) = node {
                 if !kvs.is_empty() {
@@ -707,9 +749,10 @@ pub fn mutate(j: &mut J, rng: &mut Rng) -> &'static str {
             *node = J::Bool(rng.chance(1, 2));
             "to_bool"
         }
-        2 => {
+        2 | 9 => {
+            let num = is_num(node);
             *node = odd_number(rng);
-            "to_odd_number"
+            if num { "number_to_odd_number" } else { "to_odd_number" }
         }
         3 => {
             *node = match rng.below(5) {
